@@ -65,11 +65,14 @@ HARNESS_TYPES = ["i8", "i16", "i32", "i64", "isize", "u8", "u16", "u32", "u64", 
                  "unit", "f64", "rec", "opt(i32)", "opt(u64)", "opt(bool)", "opt(string)", "opt(unit)",
                  "opt(opt(i32))", "opt(vec(i32))", "vec(i32)", "vec(u8)", "vec(usize)", "vec(string)", "vec(bool)",
                  "vec(vec(i16))", "vec(opt(i32))", "vec(opt(bool))", "pair(i32,string)", "pair(u8,bool)",
-                 "pair(vec(i32),opt(u8))", "map(string,i32)", "map(i32,vec(u8))", "map(u64,opt(bool))", "set(i32)",
+                 "pair(vec(i32),opt(u8))", "pair(i32,i32)", "vec(pair(i32,i32))", "opt(pair(i32,i32))",
+                 "map(string,pair(i32,i32))", "res(pair(i32,i32),string)", "pair(pair(i32,i32),vec(u8))", "map(string,i32)", "map(i32,vec(u8))", "map(u64,opt(bool))", "set(i32)",
                  "set(string)", "set(u64)", "res(i32,string)", "res(vec(u8),i64)"]
 CALL_SHAPES = ["f:", "f:i8", "f:i16", "f:i32", "f:i64", "f:isize", "f:u8", "f:u16", "f:u32", "f:u64", "f:usize",
                "f:bool", "f:char", "f:string", "f:unit", "f:opt(i32)", "f:opt(bool)", "f:vec(i32)", "f:vec(u8)",
-               "f:pair(i32,string)", "f:map(string,i32)", "f:set(i32)", "f:rec", "f:i32;string", "f:u8;i64",
+               "f:pair(i32,string)", "f:map(string,i32)", "f:set(i32)", "f:rec", "f:pair(i32,i32)",
+               "f:vec(pair(i32,i32))", "f:opt(pair(i32,i32))", "f:res(pair(i32,i32),string)", "f:i32;pair(i32,i32)",
+               "m:rec;pair(i32,i32)", "f:i32;string", "f:u8;i64",
                "f:string;bool", "f:opt(i32);vec(u8)", "f:usize;u64", "f:i32;string;bool", "f:u8;u16;u32",
                "f:i64;opt(i32);char", "m:rec", "mm:rec", "m:rec;i32", "mm:rec;u8", "m:rec;i32;string",
                "mm:rec;string;i64"]
@@ -742,7 +745,21 @@ SV_POOL = [("int", 0), ("int", 5), ("int", -1), ("int", 255), ("int", 256), ("in
            ("vec", [("int", 1), ("int", 255)]), ("mvec", [("int", 1)]), ("list", [("int", 1), ("int", 256)]),
            ("map", [(("str", "a"), ("int", 1))]), ("map", [(("int", 1), ("int", 1))]), ("set", [("int", 1), ("int", 2)]),
            ("set", [("str", "a")]), ("okv", ("int", 5)), ("errv", ("str", "a")), ("custom", "rec", 5), ("custom", "other", 5),
-           ("list", [("int", 7), ("str", "b")]), ("list", [("list", [("int", 1)]), ("list", [])])]
+           ("list", [("int", 7), ("str", "b")]), ("list", [("list", [("int", 1)]), ("list", [])]),
+           # tuples: too long with a well-typed prefix, too short, the wrong container, nested
+           ("list", [("int", 1), ("int", 2), ("int", 3)]), ("list", [("int", 1), ("str", "a"), ("int", 3)]),
+           ("list", [("int", 1), ("int", 2), ("int", 3), ("int", 4)]), ("list", [("int", 1)]),
+           ("list", [("int", 1), ("bool", True), ("void",)]), ("vec", [("int", 1), ("int", 2)]),
+           ("list", [("list", [("int", 1), ("int", 2)]), ("list", [("int", 3), ("int", 4), ("int", 5)])]),
+           ("list", [("list", [("int", 1), ("int", 2)]), ("list", [("int", 3), ("int", 4)])]),
+           ("list", [("list", [("int", 1), ("int", 2), ("int", 3)]), ("vec", [("int", 7)])]),
+           ("list", [("list", [("int", 1), ("int", 2)]), ("vec", [("int", 7)]), ("int", 0)]),
+           ("map", [(("str", "a"), ("list", [("int", 1), ("int", 2), ("int", 3)]))]),
+           ("map", [(("str", "a"), ("list", [("int", 1), ("int", 2)]))]),
+           ("list", [("list", [("str", "a"), ("int", 1)])]), ("set", [("list", [("int", 1), ("int", 2)])]),
+           ("okv", ("list", [("int", 1), ("int", 2), ("int", 3)])), ("okv", ("list", [("int", 1), ("int", 2)])),
+           ("errv", ("list", [("int", 1), ("int", 2)])), ("okv", ("okv", ("int", 1))),
+           ("list", [("bool", False)]), ("vec", []), ("mvec", [])]
 
 
 def struct_cases(rng, n):
@@ -771,7 +788,10 @@ def call_cases(rng, quick):
             "opt(i32)": ("int", 7), "opt(bool)": ("bool", True), "vec(i32)": ("list", [("int", 1), ("int", -2)]),
             "vec(u8)": ("vec", [("int", 0), ("int", 255)]), "pair(i32,string)": ("list", [("int", 7), ("str", "b")]),
             "map(string,i32)": ("map", [(("str", "a"), ("int", 1))]), "set(i32)": ("set", [("int", 1), ("int", 2)]),
-            "rec": ("custom", "rec", 5)}
+            "rec": ("custom", "rec", 5), "pair(i32,i32)": ("list", [("int", 1), ("int", -2)]),
+            "vec(pair(i32,i32))": ("list", [("list", [("int", 1), ("int", 2)]), ("list", [("int", 3), ("int", 4)])]),
+            "opt(pair(i32,i32))": ("list", [("int", 1), ("int", 2)]),
+            "res(pair(i32,i32),string)": ("okv", ("list", [("int", 1), ("int", 2)]))}
     for shape in CALL_SHAPES:
         kind, tys = shape_types(shape)
         n = len(tys)
@@ -792,8 +812,8 @@ def call_cases(rng, quick):
         elif n == 3:
             pool = SV_POOL[::3] + right
             for a in pool:
-                for b in pool:
-                    for c in (pool if not quick else rng.sample(pool, 3) + [right[2]]):
+                for b in (pool if not quick else rng.sample(pool, 4) + [right[1]]):
+                    for c in (pool if not quick else rng.sample(pool, 2) + [right[2]]):
                         cases.append(case_call(shape, [a, b, c]))
     # every arity of the positional and the method-shaped wrapper macros
     for n in range(2, 17):
